@@ -101,69 +101,115 @@ Definition all_bytes : list N := map N.of_nat (seq 0 256).
 (* ---------------------------------------------------------------------------------------- *)
 (* one client connection = one upstream connection behind a mutex                            *)
 (* ---------------------------------------------------------------------------------------- *)
-(* Tasks are the in-flight requests of ONE client connection, named by natural numbers; the
-   request of task t is "request t".  Program of a task (send_request):
+(* Actors are the in-flight requests of ONE client connection, named by natural numbers (the
+   request of task t is "request t"), and hyper's client CONNECTION TASK (the future spawned
+   by hyper_client::build_http_sender).  Program of a request (Client::send_request inside
+   TcpConnectionContext::send_request):
      PIdle    -- lock().await -->  PLocked        (waits while another task holds the mutex)
-     PLocked  -- write the request on the upstream connection -->  PSent
+     PLocked  -- sender.send_request(req): hyper's dispatch::Sender::can_send is
+                 `giver.give() || !buffered_once`: the connection task has signalled that it
+                 wants a request, or nothing was ever queued
+                   yes: the request is written on the upstream connection -->  PSent
+                   no : hyper returns "connection was not ready" (operation was canceled); the
+                        handler answers 503 and nothing is written -->  PFailed
+                        (with [wait_ready] -- the repaired code, patches/fix-C14-wait-upstream-ready.diff:
+                         `sender.ready().await` first -- the task waits here instead)
      PSent    -- read the next response head from the upstream connection -->  PGot r
                  (r = the request this response answers: the host answers in arrival order, so
                   the n-th head read answers the n-th request written)
      PGot r   -- guard dropped at the end of the statement -->  PDone r
-   A schedule is any list of task ids; a blocked or finished task stutters. *)
-Inductive pc := PIdle | PLocked | PSent | PGot (r : nat) | PDone (r : nat).
+   The connection task, whenever it finds nothing in flight, polls its request channel and
+   signals "want" (want::Taker::want).
+   A schedule is any list of actors; a blocked or finished actor stutters. *)
+Inductive pc := PIdle | PLocked | PSent | PGot (r : nat) | PDone (r : nat) | PFailed.
+
+Inductive actor := Req (t : nat) | ConnTask.
 
 Record conn := {
   pcs : nat -> pc;
   holder : option nat;         (* who holds the tokio Mutex *)
   upwire : list nat;           (* requests written on the upstream connection, in order *)
   answered : nat;              (* response heads read from it so far *)
+  want : bool;                 (* the connection task has signalled readiness (want::Giver) *)
+  buffered_once : bool;        (* dispatch::Sender::buffered_once *)
+  raced : bool;                (* ghost: some send_request found the connection not ready *)
 }.
 
 Definition set_pc (f : nat -> pc) (t : nat) (v : pc) : nat -> pc :=
   fun x => if Nat.eqb x t then v else f x.
 
 Definition cinit : conn :=
-  {| pcs := fun _ => PIdle; holder := None; upwire := []; answered := 0 |}.
+  {| pcs := fun _ => PIdle; holder := None; upwire := []; answered := 0;
+     want := false; buffered_once := false; raced := false |}.
 
 (* [mutex = false] is the same program without the lock -- NOT what the code does; kept to
-   show that the FIFO theorem depends on it (RelayProofs.fifo_needs_mutex) *)
-Definition cstep (mutex : bool) (c : conn) (t : nat) : conn :=
-  match pcs c t with
-  | PIdle =>
-      if mutex then
-        match holder c with
-        | None => {| pcs := set_pc (pcs c) t PLocked; holder := Some t;
-                     upwire := upwire c; answered := answered c |}
-        | Some _ => c
-        end
-      else {| pcs := set_pc (pcs c) t PLocked; holder := holder c;
-              upwire := upwire c; answered := answered c |}
-  | PLocked => {| pcs := set_pc (pcs c) t PSent; holder := holder c;
-                  upwire := upwire c ++ [t]; answered := answered c |}
-  | PSent =>
-      match nth_error (upwire c) (answered c) with
-      | Some r => {| pcs := set_pc (pcs c) t (PGot r); holder := holder c;
-                     upwire := upwire c; answered := S (answered c) |}
-      | None => c
+   show that the FIFO theorem depends on it (RelayProofs.fifo_needs_mutex).
+   [wait_ready = false] is the pinned code, [true] the repaired one. *)
+Definition cstep (mutex wait_ready : bool) (c : conn) (a : actor) : conn :=
+  match a with
+  | ConnTask =>
+      if Nat.eqb (answered c) (length (upwire c))
+      then {| pcs := pcs c; holder := holder c; upwire := upwire c; answered := answered c;
+              want := true; buffered_once := buffered_once c; raced := raced c |}
+      else c
+  | Req t =>
+      match pcs c t with
+      | PIdle =>
+          if mutex then
+            match holder c with
+            | None => {| pcs := set_pc (pcs c) t PLocked; holder := Some t;
+                         upwire := upwire c; answered := answered c;
+                         want := want c; buffered_once := buffered_once c; raced := raced c |}
+            | Some _ => c
+            end
+          else {| pcs := set_pc (pcs c) t PLocked; holder := holder c;
+                  upwire := upwire c; answered := answered c;
+                  want := want c; buffered_once := buffered_once c; raced := raced c |}
+      | PLocked =>
+          if want c || negb (buffered_once c)
+          then {| pcs := set_pc (pcs c) t PSent; holder := holder c;
+                  upwire := upwire c ++ [t]; answered := answered c;
+                  want := false; buffered_once := true; raced := raced c |}
+          else if wait_ready then c
+          else {| pcs := set_pc (pcs c) t PFailed; holder := if mutex then None else holder c;
+                  upwire := upwire c; answered := answered c;
+                  want := want c; buffered_once := buffered_once c; raced := true |}
+      | PSent =>
+          match nth_error (upwire c) (answered c) with
+          | Some r => {| pcs := set_pc (pcs c) t (PGot r); holder := holder c;
+                         upwire := upwire c; answered := S (answered c);
+                         want := want c; buffered_once := buffered_once c; raced := raced c |}
+          | None => c
+          end
+      | PGot r => {| pcs := set_pc (pcs c) t (PDone r); holder := if mutex then None else holder c;
+                     upwire := upwire c; answered := answered c;
+                     want := want c; buffered_once := buffered_once c; raced := raced c |}
+      | PDone _ => c
+      | PFailed => c
       end
-  | PGot r => {| pcs := set_pc (pcs c) t (PDone r); holder := if mutex then None else holder c;
-                 upwire := upwire c; answered := answered c |}
-  | PDone _ => c
   end.
 
-Definition crun (mutex : bool) (c : conn) (sched : list nat) : conn := fold_left (cstep mutex) sched c.
+Definition crun (mutex wait_ready : bool) (c : conn) (sched : list actor) : conn :=
+  fold_left (cstep mutex wait_ready) sched c.
 
 (* many client connections: each has its own upstream connection (TcpConnectionContext::new),
    so a step of connection [cid] touches only that connection's state *)
 Definition sys := nat -> conn.
 Definition sinit : sys := fun _ => cinit.
-Definition sstep (s : sys) (ct : nat * nat) : sys :=
-  fun x => if Nat.eqb x (fst ct) then cstep true (s (fst ct)) (snd ct) else s x.
-Definition srun (s : sys) (sched : list (nat * nat)) : sys := fold_left sstep sched s.
+Definition sstep (wait_ready : bool) (s : sys) (ct : nat * actor) : sys :=
+  fun x => if Nat.eqb x (fst ct) then cstep true wait_ready (s (fst ct)) (snd ct) else s x.
+Definition srun (wait_ready : bool) (s : sys) (sched : list (nat * actor)) : sys :=
+  fold_left (sstep wait_ready) sched s.
 
 (* the response delivered to task t, once it has one *)
 Definition delivered (c : conn) (t : nat) : option nat :=
   match pcs c t with PGot r | PDone r => Some r | _ => None end.
+
+(* class predicate of the recorded finding F12 (known_findings.d/C14.json): the schedule lets
+   some request reach hyper's SendRequest before the connection task has signalled readiness
+   after the previous exchange (pinned code) *)
+Definition KnownClass_C14_send_before_ready (sched : list actor) : bool :=
+  raced (crun true false cinit sched).
 
 (* ---------------------------------------------------------------------------------------- *)
 (* one call for the correspondence check                                                     *)
